@@ -452,6 +452,11 @@ func (rt *runtime) convertCallParameter(v Value, t reflect.Type) (reflect.Value,
 		if o := v.object(); o != nil {
 			if lv := o.get(propertyLength); lv.IsNumber() {
 				l := lv.number().int64
+				if l < 0 || l > math.MaxInt32 || o.class == classFunctionName {
+					// not a list: a negative or absurd length, or a function (whose
+					// length is its arity)
+					break
+				}
 
 				s := reflect.MakeSlice(t, int(l), int(l))
 
@@ -503,6 +508,22 @@ func (rt *runtime) convertCallParameter(v Value, t reflect.Type) (reflect.Value,
 						}
 
 						ev, err := rt.convertCallParameter(e, tt)
+						if err != nil {
+							return reflect.Zero(t), fmt.Errorf("couldn't convert element %d of %s: %w", i, t, err)
+						}
+
+						s.Index(int(i)).Set(ev)
+					}
+				default:
+					// any other array-like object (arguments, {length: n, 0: …}, String
+					// objects): read the indexed properties it has
+					for i := range l {
+						name := strconv.FormatInt(i, 10)
+						if !o.hasProperty(name) {
+							continue
+						}
+
+						ev, err := rt.convertCallParameter(o.get(name), tt)
 						if err != nil {
 							return reflect.Zero(t), fmt.Errorf("couldn't convert element %d of %s: %w", i, t, err)
 						}
